@@ -35,8 +35,16 @@ TFlush ==
   /\ UNCHANGED <<types, before>>
 \* what a reader observes of a metric is the reference merge of everything that was flushed for it -- before a
 \* compaction (the files as the flusher wrote them) and after it
+\* The key sets are compared first, straight from the logged cell lists (linear in the number of cells).  This is a
+\* consequence of CompactionOK (Keys(out) = AllKeys(blocks), and Keys(RefMerge(x)) = AllKeys(x)), not an extra
+\* requirement: it keeps the judgement cheap when a compaction over a wide slot range (families of 1s / 1m intervals,
+\* up to 4000 slots) makes cells appear or disappear -- the reference merge of an output with tens of thousands of
+\* unexpected cells is never built.  Nothing here enumerates a slot range: only logged cells are looked at.
+CellKeys(cs) == {<<cs[i][1], cs[i][2], cs[i][3]>> : i \in 1..Len(cs)}
+ListKeys(list) == UNION {CellKeys(list[i]) : i \in 1..Len(list)}
 ReadsAsFlushed(blocks) ==
   /\ DOMAIN blocks = DOMAIN flushed
+  /\ \A m \in DOMAIN flushed : ListKeys(blocks[m]) = AllKeys(flushed[m])
   /\ \A m \in DOMAIN flushed : CompactionOK(flushed[m], types, RefMerge(BlocksOf(blocks[m]), types))
 TBefore == Ev("Before") /\ ReadsAsFlushed(Line.blocks) /\ before' = Line.blocks /\ UNCHANGED <<types, flushed>>
 
@@ -46,6 +54,7 @@ TBefore == Ev("Before") /\ ReadsAsFlushed(Line.blocks) /\ before' = Line.blocks 
 TAfter ==
   /\ Ev("After")
   /\ DOMAIN Line.blocks = DOMAIN before
+  /\ \A m \in DOMAIN before : ListKeys(Line.blocks[m]) = ListKeys(before[m])
   /\ \A m \in DOMAIN before :
        LET ins == BlocksOf(before[m])
            outs == BlocksOf(Line.blocks[m])
